@@ -39,6 +39,20 @@ class ExecutionContext:
 
         return result
 
+    def __Divide(self, resultType: LinearIR.Type, op1, op2):
+        """Divide two scalars, result type is the (vector) type of the
+        instruction. Integer division truncates toward zero."""
+        if resultType.IsVector():
+            resultType = resultType.ElementType
+
+        if isinstance(resultType, LinearIR.IntegerType):
+            quotient = abs(op1) // abs(op2)
+            if (op1 < 0) != (op2 < 0):
+                quotient = -quotient
+            return quotient
+
+        return op1 / op2
+
     def __CreateInstance(self, varType: LinearIR.Type):
         if varType.IsPrimitive():
             return self.__CreatePrimitiveInstance(varType)
@@ -180,14 +194,9 @@ class ExecutionContext:
                         case LinearIR.OpCode.SUB:
                             localScope[ref] = op1 - op2
                         case LinearIR.OpCode.DIV:
-                            if isinstance(instruction.Type, LinearIR.IntegerType):
-                                # Integer division truncates toward zero
-                                quotient = abs(op1) // abs(op2)
-                                if (op1 < 0) != (op2 < 0):
-                                    quotient = -quotient
-                                localScope[ref] = quotient
-                            else:
-                                localScope[ref] = op1 / op2
+                            localScope[ref] = self.__Divide(
+                                instruction.Type, op1, op2
+                            )
                         case LinearIR.OpCode.MUL:
                             localScope[ref] = op1 * op2
                         case LinearIR.OpCode.MOD:
@@ -213,7 +222,10 @@ class ExecutionContext:
                         case LinearIR.OpCode.VECTOR_SUB:
                             localScope[ref] = [x - y for x, y in zip(op1, op2)]
                         case LinearIR.OpCode.VECTOR_DIV:
-                            localScope[ref] = [x / y for x, y in zip(op1, op2)]
+                            localScope[ref] = [
+                                self.__Divide(instruction.Type, x, y)
+                                for x, y in zip(op1, op2)
+                            ]
                         case LinearIR.OpCode.VECTOR_MUL:
                             localScope[ref] = [x * y for x, y in zip(op1, op2)]
                         case LinearIR.OpCode.VECTOR_CMP_GT:
@@ -243,7 +255,10 @@ class ExecutionContext:
                         case LinearIR.OpCode.VECTOR_MUL_SCALAR:
                             localScope[ref] = [v * op2 for v in op1]
                         case LinearIR.OpCode.VECTOR_DIV_SCALAR:
-                            localScope[ref] = [v / op2 for v in op1]
+                            localScope[ref] = [
+                                self.__Divide(instruction.Type, v, op2)
+                                for v in op1
+                            ]
                         case LinearIR.OpCode.MATRIX_MUL_MATRIX:
                             localScope[ref] = self.__MatrixMatrixMultiply(
                                 instruction.Type.Shape, op1, op2
